@@ -43,6 +43,7 @@ type RunResult struct {
 	Harness    string         `json:"harness_error,omitempty"`
 	Leak       string         `json:"leak,omitempty"`
 	Sample     any            `json:"sample,omitempty"`
+	Cover      []string       `json:"cover,omitempty"`
 }
 
 // Op is one API call executed by an application task.
@@ -110,6 +111,8 @@ type Sim struct {
 	nontrivial bool
 	harnessErr string
 	sample     any
+
+	cover []string
 
 	Phase int  // multi-phase scenarios: index of the current bubble
 	Again bool // set by the scenario to request another phase
@@ -180,6 +183,9 @@ func (s *Sim) HarnessError(format string, a ...any) {
 }
 
 func (s *Sim) Nontrivial() { s.nontrivial = true }
+
+// Cover records that a point of an enumerated space was executed.
+func (s *Sim) Cover(key string) { s.cover = append(s.cover, key) }
 
 // Wait lets the library run until every goroutine is durably blocked.
 func (s *Sim) Wait() { synctest.Wait() }
@@ -513,6 +519,7 @@ func (s *Sim) fill(res *RunResult) {
 	res.Harness = firstNonEmpty(res.Harness, s.harnessErr)
 	res.Tape = s.T.Rec
 	res.Sample = s.sample
+	res.Cover = s.cover
 	h := sha256.New()
 	for _, l := range s.log {
 		if strings.Contains(l, " ~ ") {
